@@ -294,6 +294,7 @@ type printer struct {
 	exportDefaultStart int
 	arrowExprStart     int
 	forOfInitStart     int
+	forInitStart       int
 
 	withNesting          int
 	prevOpEnd            int
@@ -1892,6 +1893,7 @@ const (
 	exportDefaultStartFlag
 	arrowExprStartFlag
 	forOfInitStartFlag
+	forInitStartFlag
 )
 
 func (p *printer) saveExprStartFlags() (flags exprStartFlags) {
@@ -1907,6 +1909,9 @@ func (p *printer) saveExprStartFlags() (flags exprStartFlags) {
 	}
 	if p.forOfInitStart == n {
 		flags |= forOfInitStartFlag
+	}
+	if p.forInitStart == n {
+		flags |= forInitStartFlag
 	}
 	return
 }
@@ -1925,6 +1930,9 @@ func (p *printer) restoreExprStartFlags(flags exprStartFlags) {
 		}
 		if (flags & forOfInitStartFlag) != 0 {
 			p.forOfInitStart = n
+		}
+		if (flags & forInitStartFlag) != 0 {
+			p.forInitStart = n
 		}
 	}
 }
@@ -2639,7 +2647,7 @@ func (p *printer) printExpr(expr js_ast.Expr, level js_ast.L, flags printExprFla
 		// An expression statement cannot start with "let [" because that's a lexical
 		// declaration: "(let)[x] = 1" must not be printed as "let[x] = 1"
 		wrapLet := false
-		if id, ok := e.Target.Data.(*js_ast.EIdentifier); ok && p.stmtStart == len(p.js) &&
+		if id, ok := e.Target.Data.(*js_ast.EIdentifier); ok && (p.stmtStart == len(p.js) || p.forInitStart == len(p.js)) &&
 			e.OptionalChain != js_ast.OptionalChainStart && p.renamer.NameForSymbol(id.Ref) == "let" {
 			wrapLet = true
 			p.print("(")
@@ -3747,6 +3755,9 @@ func (p *printer) printDeclStmt(isExport bool, keyword string, decls []js_ast.De
 func (p *printer) printForLoopInit(init js_ast.Stmt, flags printExprFlags) {
 	switch s := init.Data.(type) {
 	case *js_ast.SExpr:
+		// The head of a "for" loop cannot start with "let [" either: "for (let[x];;)"
+		// and "for (let[x] in y)" are lexical declarations
+		p.forInitStart = len(p.js)
 		p.printExpr(s.Value, js_ast.LLowest, flags|exprResultIsUnused)
 	case *js_ast.SLocal:
 		switch s.Kind {
@@ -5015,6 +5026,7 @@ func Print(tree js_ast.AST, symbols ast.SymbolMap, r renamer.Renamer, options Op
 		exportDefaultStart: -1,
 		arrowExprStart:     -1,
 		forOfInitStart:     -1,
+		forInitStart:       -1,
 
 		prevOpEnd:            -1,
 		needSpaceBeforeDot:   -1,
